@@ -46,6 +46,8 @@ impl<K, V, S> IndexMap<K, V, S> {
 	#[inline] pub fn get_index_mut(&mut self, index: usize) -> Option<(&K, &mut V)> { self.entries.get_mut(index).map(|(k, v)| (&*k, v)) }
 	#[inline] pub fn first(&self) -> Option<(&K, &V)> { self.entries.first().map(|(k, v)| (k, v)) }
 	#[inline] pub fn last(&self) -> Option<(&K, &V)> { self.entries.last().map(|(k, v)| (k, v)) }
+	#[inline] pub fn first_mut(&mut self) -> Option<(&K, &mut V)> { self.entries.first_mut().map(|(k, v)| (&*k, v)) }
+	#[inline] pub fn last_mut(&mut self) -> Option<(&K, &mut V)> { self.entries.last_mut().map(|(k, v)| (&*k, v)) }
 	#[inline] pub fn pop(&mut self) -> Option<(K, V)> { self.entries.pop() }
 	#[inline] pub fn retain<F>(&mut self, mut keep: F) where F: FnMut(&K, &mut V) -> bool { self.entries.retain_mut(|(k, v)| keep(k, v)) }
 	#[inline] pub fn drain<R>(&mut self, range: R) -> std::vec::Drain<'_, (K, V)> where R: core::ops::RangeBounds<usize> { self.entries.drain(range) }
@@ -217,6 +219,9 @@ impl<K, V, Q: ?Sized, S> IndexMut<&Q> for IndexMap<K, V, S> where Q: Equivalent<
 impl<K, V, S> Index<usize> for IndexMap<K, V, S> {
 	type Output = V;
 	fn index(&self, index: usize) -> &V { &self.entries[index].1 }
+}
+impl<K, V, S> IndexMut<usize> for IndexMap<K, V, S> {
+	fn index_mut(&mut self, index: usize) -> &mut V { &mut self.entries[index].1 }
 }
 
 // ---------------------------------------------------------------------------------------------
